@@ -1,6 +1,6 @@
 """C15 -- restricting the stages makes an evaluation a side-effect-free dry run."""
 from contracts import api, api_stages
-from ._api_common import TRUSTED_API, owner
+from ._api_common import TRUSTED_API, owner, _AnyApiClause
 
 ID = "C15"
 LEVEL = "proof"
@@ -9,7 +9,7 @@ TRUSTED = TRUSTED_API
 ASSUMPTIONS = ["A-USER", "A-DET", "A-LOG", "A-FLOAT", "A-ALIAS"]
 LEVEL_TEXT = 'Deductive proof of the stage decoding (all lists, unbounded length, all element kinds) and of the effect-trace postconditions of the real _eval_new_ctx for every stage prefix.'
 DESIGN_REF = "5 (C15)"
-REPLAY = {}
+REPLAY = _AnyApiClause()
 owns = owner("C15")
 
 
